@@ -476,7 +476,7 @@ def run(ctx):
     # corpus first
     for p in sorted(glob.glob(os.path.join(vlib.VERIF, "corpus", "C18", "*.smt2"))):
         inputs.append(("corpus", open(p, "rb").read().decode("latin-1")))
-    n_t, n_g, n_r = (70, 20, 50) if ctx.quick else (1200, 300, 1200)
+    n_t, n_g, n_r = (70, 20, 50) if ctx.quick else (600, 150, 600)
     for _ in range(n_t):
         cmds = templates(rng)
         t = "\n".join(cmds) + "\n"
@@ -498,7 +498,7 @@ def run(ctx):
             t = mutate(rng, t)
         inputs.append(("regression-mutant", t))
     if not ctx.quick:
-        for f in regs:
+        for f in rng.sample(regs, min(150, len(regs))):
             inputs.append(("regression", open(f, "rb").read().decode("latin-1")))
 
     asan = None
@@ -571,7 +571,9 @@ def run(ctx):
             # thorough: sanitizers (file mode, every third input + corpus)
             if mode == "F":
                 asan_tick[0] += 1
-            if asan is not None and mode == "F" and (kind == "corpus" or asan_tick[0] % 3 == 0):
+            # inputs that already end abnormally in the plain build are reported above; the sanitizer build looks
+            # for memory errors / UB in runs that look normal
+            if asan is not None and mode == "F" and rc in (0, 1) and (kind == "corpus" or asan_tick[0] % 3 == 0):
                 env = dict(os.environ, ASAN_OPTIONS="detect_leaks=0:abort_on_error=0:exitcode=99", UBSAN_OPTIONS="print_stacktrace=1:exitcode=98")
                 r = runner(asan, text, t_limit * 6, env)
                 if r[0] != "timeout":
